@@ -521,11 +521,13 @@ template<class T>
 Vec3_<T> Matrix4_<T>::eulerAngles(int a0, int a1, int a2) const
 {
 	T r0, r1, r2;
+	// at gimbal lock the key element is +-1 only up to rounding: elements a few ulps below 1 are degenerate too
+	const T one = 1 - (sizeof(T) == sizeof(float) ? T(1e-6) : T(1e-14));
 
 	if (a0 != a2)
 	{
 		T s = (a1 - a0 + 3) % 3 == 1 ? -1.0f : 1.0f;
-		if (fabs(at(a0, a2)) < 1)
+		if (fabs(at(a0, a2)) < one)
 		{
 			r1 = asin(-s * at(a0, a2));
 			r2 = atan2(s * at(a1, a2), at(a2, a2));
@@ -543,7 +545,7 @@ Vec3_<T> Matrix4_<T>::eulerAngles(int a0, int a1, int a2) const
 	{
 		int k = 3 - a0 - a1;
 		T s = (a1 - a0 + 3) % 3 == 2 ? -1.0f : 1.0f;
-		if (fabs(at(a0, a0)) < 1)
+		if (fabs(at(a0, a0)) < one)
 		{
 			r1 = acos(at(a0, a0));
 			r2 = atan2(at(a1, a0), -s * at(k, a0));
